@@ -124,7 +124,30 @@ impl Property for C02 {
             texts.push(vec![Piece::Raw(s2)]);
             fam.push((name, Case { dic: dic.clone(), cfg: cfg.clone(), texts }));
         }
-        run_family(self, ctx, stats, "periodic", fam)
+        let mut fails = run_family(self, ctx, stats, "periodic", fam);
+        // a crowded boundary: more than 2^16 lattice nodes end at the same position (back pointers are 16-bit
+        // indices). 256 hiragana, grouped unknown-word candidates from every start, 260 unk.def rows per candidate:
+        // 66,560 nodes end at the end of the run; every word costs -10, so the optimum is 256 one-character words
+        let noun = pos_from_str(POS_NOUN);
+        let chardef = "DEFAULT 0 1 0\nHIRAGANA 1 1 1\n0x3041..0x309F HIRAGANA\n".to_string();
+        let mut unk = String::from("DEFAULT,0,0,100,補助記号,一般,*,*,*,*\n");
+        for _ in 0..260 {
+            unk.push_str("HIRAGANA,0,0,-10,名詞,普通名詞,一般,*,*,*\n");
+        }
+        let dic = DicModel { matrix: Matrix { nl: 1, nr: 1, lines: vec![] }, system: vec![Entry::simple("x", 0, 0, 100, &noun)], users: vec![] };
+        let mut crowded: Vec<(String, Case)> = Vec::new();
+        for run in [250u32, 252, 253, 256, 300] {
+            let cfg = CfgModel {
+                chardef: FileSrc::Text(chardef.clone()),
+                input: vec![],
+                oov: vec![OovPlugin::Mecab { chardef: FileSrc::Text(chardef.clone()), unkdef: FileSrc::Text(unk.clone()), user_pos: Some(true) }],
+                inhibit: None,
+                path: vec![],
+            };
+            crowded.push((format!("{} x 260 nodes ending at one boundary", run), Case { dic: dic.clone(), cfg, texts: vec![vec![Piece::Rep("あ".into(), run)]] }));
+        }
+        fails.extend(run_family(self, ctx, stats, "crowded-boundary", crowded));
+        fails
     }
     fn check(&self, case: &Case, ctx: &mut Ctx) -> Report {
         let mut rep = Report::default();
@@ -326,4 +349,27 @@ impl Property for C02 {
         let _ = dict.grammar();
         rep
     }
+}
+
+/// reproducers of recorded findings (written by `vcheck fixtures`)
+pub fn fixtures() -> Vec<(&'static str, Case, &'static str)> {
+    let noun = pos_from_str(POS_NOUN);
+    let chardef = "DEFAULT 0 1 0\nHIRAGANA 1 1 1\n0x3041..0x309F HIRAGANA\n".to_string();
+    let mut unk = String::from("DEFAULT,0,0,100,補助記号,一般,*,*,*,*\n");
+    for _ in 0..260 {
+        unk.push_str("HIRAGANA,0,0,-10,名詞,普通名詞,一般,*,*,*\n");
+    }
+    let dic = DicModel { matrix: Matrix { nl: 1, nr: 1, lines: vec![] }, system: vec![Entry::simple("x", 0, 0, 100, &noun)], users: vec![] };
+    let cfg = CfgModel {
+        chardef: FileSrc::Text(chardef.clone()),
+        input: vec![],
+        oov: vec![OovPlugin::Mecab { chardef: FileSrc::Text(chardef), unkdef: FileSrc::Text(unk), user_pos: Some(true) }],
+        inhibit: None,
+        path: vec![],
+    };
+    vec![(
+        "f25-more-than-65535-nodes-at-one-boundary.json",
+        Case { dic, cfg, texts: vec![vec![Piece::Rep("あ".into(), 256)]] },
+        "F25: 256 hiragana with grouped unknown-word candidates from every start and 260 unk.def rows put 66,560 lattice nodes at the end of the run; the back pointer of the best predecessor (index 66,300) was narrowed to 16 bits and named another node: the returned path (3 morphemes, cost -30) was not the optimum the lattice had computed (256 morphemes, cost -2560)",
+    )]
 }
